@@ -216,6 +216,9 @@ func (x *Exec) exec(st *State, fr *Frame, in ssa.Instruction) []*State {
 		// iterator object: remember what is iterated
 		it := &rangeIter{x: x.get(fr, v.X), t: v.X.Type(), rng: v}
 		fr.regs[v] = it
+		if bt, isStr := v.X.Type().Underlying().(*types.Basic); isStr && bt.Info()&types.IsString != 0 {
+			st.iters = append(st.iters, iterState{rng: v, pos: IntC(0)})
+		}
 		if _, isMap := v.X.Type().Underlying().(*types.Map); isMap {
 			ks, _ := x.mapSorts(v.X.Type())
 			vis := Fresh("visited", ArrSort(ks, SBool))
@@ -228,7 +231,7 @@ func (x *Exec) exec(st *State, fr *Frame, in ssa.Instruction) []*State {
 				bv := Sym("b!k", ks)
 				st.assumeDef(Forall([]*T{bv}, Not(Select(vis, bv))))
 			}
-			st.iters = append(st.iters, iterState{v, vis})
+			st.iters = append(st.iters, iterState{rng: v, visited: vis})
 		}
 	case *ssa.Next:
 		return x.next(st, fr, v)
@@ -1020,12 +1023,30 @@ func (x *Exec) convert(st *State, fr *Frame, in ssa.Instruction, v Val, from, to
 func (x *Exec) next(st *State, fr *Frame, v *ssa.Next) []*State {
 	it := x.get(fr, v.Iter).(*rangeIter)
 	if v.IsString {
-		ok := Fresh("rng!ok", SBool)
-		idx := Fresh("rng!i", SInt)
-		r := Fresh("rng!r", SInt)
 		s := x.scalar(it.x)
-		st.assumeDef(Implies(ok, And(Ge(idx, IntC(0)), Lt(idx, Slen(s)), Ge(r, IntC(0)), Le(r, IntC(1114111)))))
-		fr.regs[v] = TupleV{ok, idx, r}
+		// the iterator walks the bytes: it stops at the end of the string, an ASCII byte is
+		// its own rune of width one, any other byte starts a rune >= 0x80 of width 1..4
+		pi := -1
+		for i := range st.iters {
+			if st.iters[i].rng == it.rng && st.iters[i].pos != nil {
+				pi = i
+			}
+		}
+		if pi < 0 {
+			st.iters = append(st.iters, iterState{rng: it.rng, pos: IntC(0)})
+			pi = len(st.iters) - 1
+		}
+		pos := st.iters[pi].pos
+		ok := Lt(pos, Slen(s))
+		r := Fresh("rng!r", SInt)
+		np := Fresh("rng!pos", SInt)
+		b := Sat(s, pos)
+		st.assumeDef(Implies(ok, And(Ge(r, IntC(0)), Le(r, IntC(1114111)),
+			Implies(Lt(b, IntC(128)), And(Eq(r, b), Eq(np, Add(pos, IntC(1))))),
+			Implies(Ge(b, IntC(128)), And(Ge(r, IntC(128)), Gt(np, pos), Le(np, Add(pos, IntC(4))), Le(np, Slen(s)))))))
+		st.assumeDef(Implies(Not(ok), Eq(np, pos)))
+		st.iters[pi].pos = np
+		fr.regs[v] = TupleV{ok, pos, r}
 		return nil
 	}
 	mt := it.t
